@@ -6,8 +6,11 @@
    PROVED here (hence _partial): one remove_intermediate_node step is exactly the contraction of
    the removed node on the wire level (the new wire joins the producer's output port with the
    consumer's input port, every other wire is untouched), for all edge lists.
-   NOT proved: the multi-step statement (eliminate = contraction of the whole set of unary
-   unions/tees; merge_modules = port-wise contraction of module boundaries) and anything about
+   and the multi-step statement for eliminate_extra_unions_tees: removing any list of distinct
+   single-input single-output nodes one after the other yields exactly the end-to-end
+   (source port -> sink port) connections of the original graph through the removed nodes
+   (C20_eliminate_preserves_wiring; [conn]/[route] in Partition/Rewrite.v).
+   NOT proved: merge_modules (port-wise contraction of module boundaries) and anything about
    serde_json -- those are decided per run by the executable comparison [same_dataflow_b]
    (end-to-end wiring through the removed nodes = wiring of the result, surviving nodes
    untouched) and [graph_eqb] on the real before/after graphs (props/C20.py). *)
@@ -29,6 +32,19 @@ Theorem C20_remove_intermediate_spec_partial : forall (es : list edge) (n k : N)
     map wire_of es' = map wire_of (others es n) ++ [(e_src i, e_sport i, e_dst o, e_dport o)].
 Proof. exact remove_mid_spec. Qed.
 Print Assumptions C20_remove_intermediate_spec_partial.
+
+Theorem C20_eliminate_preserves_wiring : forall (rs : list N) (es : list edge) (k : N) (es' : list edge),
+  NoDup rs -> elim es rs k = Some es' ->
+  forall w, In w (map wire_of es') <-> conn es rs w.
+Proof. exact elim_preserves_wiring. Qed.
+Print Assumptions C20_eliminate_preserves_wiring.
+
+(* non-vacuity: src -> union(2) -> tee(3) -> [pos]d : both unary nodes removed, ports kept end to end *)
+Example C20_eliminate_example :
+  NoDup [2; 3] /\
+  elim [mkEdge 1 1 2 (PInt false 0) PElided; mkEdge 2 2 3 PElided PElided; mkEdge 3 3 4 PElided (PPath "pos")] [2; 3] 10
+  = Some [mkEdge 11 1 4 (PInt false 0) (PPath "pos")].
+Proof. split; [repeat constructor; simpl; intuition discriminate|vm_compute; reflexivity]. Qed.
 
 (* non-vacuity: a -> [1]union -> [pos]d : the unary union 2 is removed, ports kept end to end *)
 Example C20_remove_example :
